@@ -19,7 +19,24 @@ CACHE = os.path.join(VERIF, ".cache")
 HARNESS = os.path.join(VERIF, "harness")
 EVID = os.path.join(VERIF, "evidence")
 REPLAYS = os.path.join(VERIF, "replays")
-TARGET = os.environ.get("VERIF_TARGET_DIR", os.path.join(CACHE, "target"))
+_REPO_TAG = "" if REPO == "/repo" else "-" + hashlib.sha256(REPO.encode()).hexdigest()[:8]
+TARGET = os.environ.get("VERIF_TARGET_DIR", os.path.join(CACHE, "target" + _REPO_TAG))
+
+
+def harness_dir():
+    """The harness crate to build. For the default /repo this is /verif/harness itself; when VERIF_REPO
+    points at a scratch worktree (mutation experiments) a copy with the path dependencies rewritten is
+    kept under .cache so that /verif/harness and /repo stay untouched."""
+    if REPO == "/repo":
+        return HARNESS
+    d = os.path.join(CACHE, "harness" + _REPO_TAG)
+    os.makedirs(d, exist_ok=True)
+    subprocess.run(["rsync", "-a", "--delete", "--exclude", "target", "--exclude", "Cargo.toml", "--exclude", "Cargo.lock",
+                    HARNESS + "/", d + "/"], check=True)
+    toml = open(os.path.join(HARNESS, "Cargo.toml")).read().replace('"/repo/', '"' + REPO.rstrip("/") + "/")
+    write_if_changed(os.path.join(d, "Cargo.toml"), toml)
+    return d
+
 NPROC = int(os.environ.get("VERIF_JOBS", "16"))
 
 FORBIDDEN = re.compile(
@@ -241,11 +258,12 @@ class Ctx:
             cmd.append("--release")
         for b in bins:
             cmd += ["--bin", b]
-        lock = os.path.join(HARNESS, "Cargo.lock")
+        hd = harness_dir()
+        lock = os.path.join(hd, "Cargo.lock")
         if not os.path.exists(lock):
             import shutil
             shutil.copy(os.path.join(REPO, "Cargo.lock"), lock)
-        rc, out, t = sh(cmd, cwd=HARNESS, timeout=1800, env={"CARGO_TARGET_DIR": TARGET})
+        rc, out, t = sh(cmd, cwd=hd, timeout=1800, env={"CARGO_TARGET_DIR": TARGET})
         self.timed("cargo_build_s", t)
         if rc != 0:
             self.log("harness build FAILED")
